@@ -88,7 +88,7 @@ MISSING = object()
 def coupling(sd, tg, r):
     """I(self, rho), scalar part: skipping <=> rho != None; inside a region the
     counter is depth+1 and the remembered tag is the region's tag."""
-    cs = [wf(r), r.on == (sd > 0), z3.Implies(r.on, sd == r.n + 1)]
+    cs = [wf(r), r.on == (sd > 0), z3.Implies(r.on, sd == r.n + 1), z3.Implies(z3.Not(r.on), sd == 0)]
     if tg is not MISSING:
         if isinstance(tg, VStr):
             cs.append(z3.Implies(r.on, tg.t == r.tag))
@@ -318,7 +318,38 @@ class C17Executor(Executor):
         return super().e_DictComp(n, st)
 
 
+    # substring / prefix tests on symbolic text stay uninterpreted (shared with the spec of _looks_like_html): z3's sequence
+    # solver needed 30-120 s per VC for Contains / PrefixOf over lower(lstrip(text)[:k]); nothing here needs their theory
+    def __init__(self, *a, opaque_str=False, **kw):
+        super().__init__(*a, **kw)
+        self.opaque_str = opaque_str        # only for the contract that asks for it (EXECUTOR_KW); other users are unaffected
+
+    def contains(self, st, container, item, node):
+        if self.opaque_str and isinstance(container, VStr) and isinstance(item, VStr) and container.const() is None:
+            return [(st, VBool(STR_HAS(container.t, item.t)))]
+        return super().contains(st, container, item, node)
+
+    def str_method(self, st, s, name, args, kwargs, node):
+        if self.opaque_str and name == "startswith" and s.const() is None and len(args) == 1 and isinstance(args[0], VStr):
+            return [(st, VBool(STR_STARTS(s.t, args[0].t)))]
+        return super().str_method(st, s, name, args, kwargs, node)
+
+
+    def str_slice(self, st, base, sl, node):
+        if self.opaque_str and base.const() is None and sl.step is None:
+            # s[lo:hi] as an uninterpreted function of (s, lo, hi): a model that separates s[:4096] from s would need a
+            # 4097-character string, which z3's sequence solver does not find within minutes
+            lo = self._ev_int1(sl.lower, st, node) if sl.lower is not None else z3.IntVal(0)
+            hi = self._ev_int1(sl.upper, st, node) if sl.upper is not None else z3.IntVal(-1)
+            return [(st, VStr(STR_SLICE(base.t, lo, z3.BoolVal(sl.upper is not None), hi)))]
+        return super().str_slice(st, base, sl, node)
+
+
+STR_SLICE = z3.Function("str_slice", S, z3.IntSort(), z3.BoolSort(), z3.IntSort(), S)
+STR_HAS = z3.Function("str_contains", S, S, z3.BoolSort())
+STR_STARTS = z3.Function("str_startswith", S, S, z3.BoolSort())
 EXECUTOR = C17Executor
+EXECUTOR_KW = {f"{MSG}::_looks_like_html": {"opaque_str": True}}
 
 
 def m_lower(ex, st, args, kwargs, node):
@@ -348,6 +379,11 @@ def install(reg):
     reg.ext_models["str.split"] = m_split
     reg.ext_models["str.join"] = m_join
     reg.method_models[("HTMLParserBase", "__init__")] = lambda ex, st, obj, a, k, n: [(st, NONE)]
+    reg.ext_models["str.lstrip"] = lambda ex, st, args, kwargs, node: [(st, VStr(LSTRIP(args[0].t)))] if len(args) == 1 else \
+        [(st, VStr(z3.String(fresh_name("lstrip"))))]
+    if hint_pattern() is not None:
+        reg.module_consts[(MSG, "_HTML_HINT_RE")] = VExt("HintRe")
+        reg.method_models[("HintRe", "search")] = m_hint_search
 
 
 # ------------------------------------------------------------ frame helpers --
@@ -622,7 +658,85 @@ def contracts(reg):
                  ("pure", lambda c: frame(c, ()))],
         modifies=("self",),
     ))
+    out.append(looks_like_html_contract())
     return out
+
+
+# ------------------------------------------------- MSG body sniffing (round 2) --
+LSTRIP = z3.Function("str_lstrip", S, S)
+HINT = z3.Function("html_hint_re_search_matches", S, z3.BoolSort())      # `_HTML_HINT_RE.search(x) is not None`
+
+
+def hint_pattern(repo=None):
+    """(pattern text, min width) of msg_email_extractor._HTML_HINT_RE when it is `re.compile(<literal>, ...)`, else None."""
+    try:
+        v = loader.module(MSG, repo).assigns.get("_HTML_HINT_RE")
+        if isinstance(v, ast.Call) and ast.unparse(v.func) == "re.compile" and v.args and isinstance(v.args[0], ast.Constant) \
+                and isinstance(v.args[0].value, str):
+            import re._parser as rp
+            return v.args[0].value, rp.parse(v.args[0].value).getwidth()[0]
+    except Exception:  # noqa
+        pass
+    return None
+
+
+def m_hint_search(ex, st, obj, args, kwargs, node):
+    """re.Pattern.search on the hint pattern: ASSUMED total; the result is a match object iff HINT(x)."""
+    if len(args) != 1 or not isinstance(args[0], VStr):
+        return ex.havoc_call(st, "Pattern.search", args, node)
+    x = args[0].t
+    a = st.fork().assume(HINT(x))
+    b = st.assume(z3.Not(HINT(x)))
+    return [(s_, v) for (s_, v) in ((a, VExt("ReMatch")), (b, NONE)) if ex.feasible(s_.pc)]
+
+
+def looks_like_html_contract():
+    """An HTML mail body is recognised by evidence ANYWHERE in the body: removed elements may be arbitrarily long
+    ("whatever the element contains"), so the first piece of evidence may be arbitrarily far from the start.  Evidence, from
+    the routing's own vocabulary: the hint pattern matches somewhere in the body; `<html` / `<body` occurs (case-insensitively);
+    the body starts with a doctype.  (Only this direction matters for C17: a body classified HTML goes through the remover.)"""
+    P_STR = Maker(lambda ex, st, name: VStr(z3.String(name)), desc="str")
+
+    def nb(c):
+        return LOWER(LSTRIP(c.args["text"].t))
+
+    def req(c):
+        e_ = z3.StringVal("")
+        facts = [LSTRIP(e_) == e_, LOWER(e_) == e_]           # ground PY-STR facts: the empty text contains / starts with nothing
+        facts += [z3.Not(STR_HAS(e_, z3.StringVal(k))) for k in ("<html", "<body")] + [z3.Not(STR_STARTS(e_, z3.StringVal("<!doctype")))]
+        hp = hint_pattern(c.ex.module.repo)
+        if hp is not None and hp[1] >= 1:
+            facts.append(z3.Not(HINT(z3.StringVal(""))))      # PY-RE: the pattern needs at least one character
+        return z3.And(facts)
+
+    def res(c):
+        return c.result.t if isinstance(c.result, VBool) else None
+
+    def imp(ev):
+        def f(c):
+            r = res(c)
+            return z3.BoolVal(False) if r is None else z3.Implies(ev(c), r)
+        return f
+    return FnContract(
+        target=f"{MSG}::_looks_like_html",
+        params=[("text", P_STR)],
+        requires=req,
+        ensures=[("hint-element-anywhere-in-the-body-is-recognised", imp(lambda c: HINT(c.args["text"].t))),
+                 ("html-or-body-tag-anywhere-in-the-body-is-recognised",
+                  imp(lambda c: z3.Or(STR_HAS(nb(c), z3.StringVal("<html")), STR_HAS(nb(c), z3.StringVal("<body"))))),
+                 ("leading-doctype-is-recognised", imp(lambda c: STR_STARTS(nb(c), z3.StringVal("<!doctype"))))],
+        note="recognition of an HTML body does not depend on where in the body the evidence stands",
+    )
+
+
+def post_report(c, rep):
+    """A solver model of a VC over the uninterpreted HINT / LSTRIP / LOWER functions is not a refutation by itself
+    (DESIGN 2.5.3b): the obligation becomes `unknown`, the native search (replay) decides VIOLATION vs UNDECIDED."""
+    if c.target.endswith("::_looks_like_html"):
+        for o in rep.obligations:
+            if o["status"] == "refuted":
+                o["status"] = "unknown"
+                o["reason"] = "solver model interprets the uninterpreted regex / lstrip / lower functions: not a refutation by itself; " + (o.get("reason") or "")
 
 
 # --------------------------------------------------------------------- lemmas --
@@ -798,7 +912,33 @@ def policy(repo, tier):
     return {"obligations": obls, "functions": fns}
 
 
-EXTRA = [policy]
+from contracts import C17_sites  # noqa: E402
+
+
+def known_findings(kf, violations, repo, tier):
+    """Recorded genuine defects (known_findings.json): each witness document is replayed natively; a finding that still fails
+    prints KNOWN-FINDING and covers exactly its own obligation ids (every other refuted obligation stays a violation)."""
+    import json
+    import os
+    import subprocess
+    out = []
+    vio_ids = {v["id"] for v in violations}
+    for f in kf:
+        req = {"property": "C17", "obligation": f["obligation"], "known_finding": f["id"], "witness": f.get("witness"), "repo": repo}
+        try:
+            p = subprocess.run(["/venv/bin/python", os.path.join(os.path.dirname(os.path.dirname(os.path.abspath(__file__))), "replay", "run.py")],
+                               input=json.dumps(req), capture_output=True, text=True, timeout=600, env=dict(os.environ, VERIF_REPO=repo))
+            lines = [l for l in p.stdout.splitlines() if l.startswith("{")]
+            res = json.loads(lines[-1]) if lines else {"reproduced": False}
+        except Exception as e:  # noqa
+            res = {"reproduced": False, "note": str(e)}
+        still = bool(res.get("reproduced"))
+        covers = [o for o in f.get("covers", [f["obligation"]]) if o in vio_ids] if still else []
+        out.append({"finding": f["id"], "still_fails": still, "line": f"{f['id']}: {f['what']}", "covers": covers,
+                    "witness_replay": str(res.get("observed", res.get("note", "")))[:400]})
+    return out
+
+EXTRA = [policy, C17_sites.tokeniser_configuration, C17_sites.input_provenance, C17_sites.native_scope]
 
 TRUSTED = ["html.parser.HTMLParser: feed(text) calls the overridden handlers with an event sequence; <x/> = Start then End; "
            "tag names are compared through str.lower; HTMLParser.__init__ touches only its own private fields; "
